@@ -4,7 +4,9 @@ package standard
 // -overlay by /verif/check.  The real block relay (built with New, its periodic jobs run through
 // the scheduler they were registered with) and the real proposal preparer are driven through
 // registration rounds, preparation rounds, configuration changes and REST registrations; the
-// fakes at their interfaces record every signing request and every submission.
+// fakes at their interfaces record every signing request and the start, the deliveries and the
+// outcome of every call to a relay or beacon node (they honour the call's context like an HTTP
+// client; the round's latency script decides how the calls of a fan-out overlap).
 
 import (
 	"context"
@@ -34,6 +36,7 @@ type c11Step struct {
 	Nodefail  []int           `json:"nodefail"`
 	Nodeout   [][]interface{} `json:"nodeout"`
 	Regs      [][3]int        `json:"regs"`
+	Lat       string          `json:"lat"` // latency script of the round: none | slow | batched
 }
 
 type c11Scenario struct {
@@ -111,6 +114,7 @@ func c11RunScenario(t *testing.T, tr *verifsupport.Trace, sc c11Scenario) {
 				env.nodeFail[n] = true
 			}
 			env.mode = "reg"
+			env.newRound(st.Lat)
 			env.mu.Unlock()
 			env.emit(verifsupport.Ev{"ev": "RoundStart", "accts": c11Ints(st.Accts)})
 			// the registration job the service registered with the scheduler
@@ -126,6 +130,7 @@ func c11RunScenario(t *testing.T, tr *verifsupport.Trace, sc c11Scenario) {
 				env.prepOut[int(no[0].(float64))] = no[1].(string)
 			}
 			env.prepSeen = 0
+			env.newRound(st.Lat)
 			env.mu.Unlock()
 			env.emit(verifsupport.Ev{"ev": "PrepStart", "accts": c11Ints(st.Accts)})
 			uerr := prep.UpdatePreparations(ctx)
@@ -171,12 +176,17 @@ func c11RunScenario(t *testing.T, tr *verifsupport.Trace, sc c11Scenario) {
 			env.fwdIn = in
 			env.mode = "fwd"
 			env.relayFail = map[int]bool{}
+			for _, r := range st.Relayfail {
+				env.relayFail[r] = true
+			}
+			env.newRound(st.Lat)
 			env.mu.Unlock()
 			env.emit(verifsupport.Ev{"ev": "FwdStart", "regs": st.Regs})
 			_, ferr := sys.svc.ValidatorRegistrations(ctx, regs)
 			env.emit(verifsupport.Ev{"ev": "FwdEnd", "ok": ferr == nil})
 			env.mu.Lock()
 			env.mode = "reg"
+			env.relayFail = map[int]bool{}
 			env.mu.Unlock()
 		default:
 			t.Fatalf("unknown step %q", st.Ev)
